@@ -49,6 +49,11 @@ func genDedicated(seed uint64, tier, variant string) any {
 				c.Cmds = append(c.Cmds, CmdSpec{Argv: []string{"EXEC"}})
 			case x < 65:
 				c = CallSpec{Kind: "do", Cmds: []CmdSpec{{Argv: []string{"BLPOP", "bl0", pick(r, "0.05", "0.5")}, Keys: 1, Flag: "block"}}}
+				if r.IntN(3) == 0 {
+					// given up by its caller while the server still holds it: that connection must not be handed to a session
+					c.Cmds[0].Argv[2] = pick(r, "2", "0")
+					c.Cancel, c.CancelAfter = true, 2+r.IntN(6)
+				}
 			default:
 				c = CallSpec{Kind: "do", Cmds: []CmdSpec{{Argv: []string{"VTAG", uid(0), "[sb]"}}}}
 			}
@@ -154,6 +159,48 @@ func execDedicated(t *testing.T, plan any, out *Outcome) {
 		sessions++
 		for _, n := range res.Notes {
 			out.violate("C25", "use-after-release", "task %d call %d: a call on the released dedicated client did not fail with ErrDedicatedClientRecycled (%s)", task, rec.Index, n)
+		}
+		// every command of the session got the reply to that command: a connection that still owed another caller a reply
+		// when the session took it would shift them
+		off := 0
+		if spec.S != "" {
+			off = 1 // the result of SUBSCRIBE / CLIENT TRACKING ON comes first
+		}
+		inTx := false
+		for i, c := range spec.Cmds {
+			if off+i >= len(res.Res) {
+				break
+			}
+			r := res.Res[off+i]
+			if r.Err != "" {
+				continue
+			}
+			bad := ""
+			switch name := strings.ToUpper(c.Argv[0]); {
+			case name == "WATCH" || name == "MULTI":
+				if r.V.S != "OK" {
+					bad = "+OK"
+				}
+				inTx = inTx || name == "MULTI"
+			case name == "EXEC":
+				if r.V.T != '*' && r.V.T != '_' && !r.V.Null {
+					bad = "an array or nil"
+				}
+				inTx = false
+			case inTx:
+				if r.V.S != "QUEUED" {
+					bad = "+QUEUED"
+				}
+			case name == "VKTAG":
+				if !strings.Contains(r.V.S, c.Argv[2]) {
+					bad = "a reply carrying " + c.Argv[2]
+				}
+			}
+			if bad != "" {
+				out.violate("C25", "session-got-foreign-reply", "task %d call %d: command %d of the dedicated session, %q, was answered with %s where %s is due: the session's connection delivered a reply that belongs to another command", task, rec.Index, i, truncArgv(c.Argv), truncStr(r.V.String(), 80), bad)
+				break
+			}
+			out.judged("session-reply-is-own")
 		}
 		sid := spec.Cmds[1].Argv[2] // d.tX.cY.k1
 		prefix := sid[:strings.LastIndex(sid, ".")+1]
